@@ -49,6 +49,11 @@ type caseT struct {
 	WS       int        `json:"websocket_conns,omitempty"`
 	Delay    bool       `json:"delay_points"`
 	Seed     int64      `json:"seed"`
+	// added after the second seeded-change round
+	MaxWB    bool   `json:"small_write_buffer_bound,omitempty"` // core: the backlog writes fail with the overflow error before Stop
+	AddStop  string `json:"add_conn_during_stop,omitempty"`     // core: "" | race | in-onopen (AddConn whose open callback is still running when Stop starts)
+	Transfer bool   `json:"ws_transfer_to_poller,omitempty"`    // http: Upgrader.BlockingModTrasferConnToPoller
+	WSSync   bool   `json:"ws_sync_write,omitempty"`            // http: Upgrader.BlockingModAsyncWrite = false
 }
 
 var modes = []string{"LT", "ET", "ONESHOT"}
@@ -74,6 +79,15 @@ func genCase(r *h.Run, idx int) caseT {
 	c.Closers = rng.Intn(4)
 	c.Shutdown = rng.Intn(3) == 0
 	c.Delay = rng.Intn(2) == 0
+	if c.Family == "core" {
+		c.MaxWB = rng.Intn(3) == 0
+		if c.Net != "udp" {
+			c.AddStop = []string{"", "race", "in-onopen"}[rng.Intn(3)]
+		}
+	} else {
+		c.Transfer = rng.Intn(2) == 0
+		c.WSSync = rng.Intn(3) == 0
+	}
 	return c
 }
 
@@ -185,6 +199,9 @@ func runCase(r *h.Run, c caseT) {
 
 	if c.Family == "core" {
 		conf := nbio.Config{Network: c.Net, NPoller: c.NPoller}
+		if c.MaxWB {
+			conf.MaxWriteBufferSize = 256 << 10
+		}
 		switch c.Mode {
 		case "ET":
 			conf.EpollMod = nbio.EPOLLET
@@ -203,12 +220,17 @@ func runCase(r *h.Run, c caseT) {
 		g := nbio.NewEngine(conf)
 		var cmu sync.Mutex
 		var srvConns []*nbio.Conn
+		var addState int32 // 1: the next open callback parks until the gate opens; 2: parked
+		addGate := make(chan struct{})
 		g.OnOpen(func(cn *nbio.Conn) {
 			atomic.AddInt64(&opens, 1)
 			atomic.AddInt64(&progress, 1)
 			cmu.Lock()
 			srvConns = append(srvConns, cn)
 			cmu.Unlock()
+			if atomic.CompareAndSwapInt32(&addState, 1, 2) {
+				<-addGate
+			}
 		})
 		g.OnClose(func(cn *nbio.Conn, err error) {
 			atomic.AddInt64(&closes, 1)
@@ -315,6 +337,51 @@ func runCase(r *h.Run, c caseT) {
 		}
 		time.Sleep(time.Duration(rng.Intn(3000)) * time.Microsecond)
 		stopFn = func() {
+			var addErr error
+			addDone := make(chan struct{})
+			if c.AddStop != "" {
+				// a connection handed to AddConn around the moment Stop starts: it is either refused
+				// (and closed) or taken and then closed by Stop - never left behind, and Stop returns
+				sp, err := syscall.Socketpair(syscall.AF_UNIX, syscall.SOCK_STREAM, 0)
+				if err == nil {
+					f0, f1 := os.NewFile(uintptr(sp[0]), "add0"), os.NewFile(uintptr(sp[1]), "add1")
+					mine, e0 := net.FileConn(f0)
+					other, e1 := net.FileConn(f1)
+					f0.Close()
+					f1.Close()
+					if e0 == nil && e1 == nil {
+						addPeer(other)
+						if c.AddStop == "in-onopen" {
+							atomic.StoreInt32(&addState, 1)
+						}
+						go func() {
+							defer close(addDone)
+							if c.AddStop == "race" {
+								time.Sleep(time.Duration(rng.Intn(400)) * time.Microsecond)
+							}
+							_, addErr = g.AddConn(mine)
+							if addErr != nil {
+								mine.Close() // refused: the caller keeps the ownership
+							}
+						}()
+						if c.AddStop == "in-onopen" {
+							for i := 0; i < 2000 && atomic.LoadInt32(&addState) != 2; i++ {
+								time.Sleep(time.Millisecond)
+							}
+							// the open callback returns while Stop is on its way
+							time.AfterFunc(time.Duration(5+rng.Intn(30))*time.Millisecond, func() { close(addGate) })
+						} else {
+							time.Sleep(time.Duration(rng.Intn(400)) * time.Microsecond)
+						}
+					} else {
+						close(addDone)
+					}
+				} else {
+					close(addDone)
+				}
+			} else {
+				close(addDone)
+			}
 			if c.Shutdown {
 				_ = g.Shutdown(context.Background())
 			} else {
@@ -323,6 +390,36 @@ func runCase(r *h.Run, c caseT) {
 			atomic.StoreInt32(&stormStop, 1)
 			// at return every open has had its close notification (dials count as opens of their own)
 			o, cl := atomic.LoadInt64(&opens)+atomic.LoadInt64(&pendingDial), atomic.LoadInt64(&closes)
+			select {
+			case <-addDone:
+			case <-time.After(20 * time.Second):
+				r.Violate(sig("add-conn-never-returned"), fmt.Sprintf("AddConn issued around the start of Stop (%s) had not returned 20 s after Stop returned\nconfig %s/%s", c.AddStop, c.Net, c.Mode), c)
+				return
+			}
+			r.Seen("add_during_stop", fmt.Sprintf("%s/refused=%v", c.AddStop, addErr != nil))
+			if c.AddStop == "race" {
+				// the racing AddConn may have started after Stop had returned: it is refused and closed
+				// by AddConn itself, the counts are compared once it is back
+				// (the notification itself is delivered by the engine's asynchronous queue: wait for
+				// equality, or for the stable state in which nothing moves any more)
+				stable := 0
+				lastCPU := h.CPUTime()
+				for stable < 60 {
+					o, cl = atomic.LoadInt64(&opens)+atomic.LoadInt64(&pendingDial), atomic.LoadInt64(&closes)
+					if o == cl {
+						break
+					}
+					time.Sleep(50 * time.Millisecond)
+					cpu := h.CPUTime()
+					o2, cl2 := atomic.LoadInt64(&opens)+atomic.LoadInt64(&pendingDial), atomic.LoadInt64(&closes)
+					if o2 == o && cl2 == cl && cpu-lastCPU < 3*time.Millisecond {
+						stable++
+					} else {
+						stable = 0
+					}
+					lastCPU = cpu
+				}
+			}
 			if o != cl {
 				r.Violate(sig("close-notifications-missing-at-stop-return"), fmt.Sprintf("Stop returned with %d connections opened/dialed and %d close notifications delivered\nconfig %s/%s", o, cl, c.Net, c.Mode), c)
 			}
@@ -333,6 +430,10 @@ func runCase(r *h.Run, c caseT) {
 		mux := http.NewServeMux()
 		mux.HandleFunc("/", func(w http.ResponseWriter, rq *http.Request) { _, _ = w.Write([]byte("ok")) })
 		up := websocket.NewUpgrader()
+		up.BlockingModTrasferConnToPoller = c.Transfer
+		if c.WSSync {
+			up.BlockingModAsyncWrite = false
+		}
 		up.OnMessage(func(wc *websocket.Conn, mt websocket.MessageType, b []byte) { _ = wc.WriteMessage(mt, b) })
 		mux.HandleFunc("/ws", func(w http.ResponseWriter, rq *http.Request) { _, _ = up.Upgrade(w, rq, nil) })
 		conf := c.Cell.Config(mux)
